@@ -302,6 +302,7 @@ struct Parser<'a> {
     previous: Token,
     panic_mode: Cell<bool>,
     single_target_mode: bool,
+    nesting: usize,
     scanner: &'a mut Scanner,
     compilers: Vec<Compiler>,
     class_compilers: Vec<ClassCompiler>,
@@ -322,6 +323,7 @@ impl<'a> Parser<'a> {
             previous: Token::new(),
             panic_mode: Cell::new(false),
             single_target_mode: false,
+            nesting: 0,
             scanner,
             compilers: Vec::new(),
             class_compilers: Vec::new(),
@@ -420,12 +422,28 @@ impl<'a> Parser<'a> {
         self.parse_precedence(precedence);
     }
 
+    // Blocks and expressions nest by recursion: the depth is bounded so that no source text can
+    // exhaust the host stack.
+    fn enter_nesting(&mut self) -> bool {
+        if self.nesting >= common::NESTING_MAX {
+            self.error_at_current("Too much nesting.");
+            self.advance();
+            return false;
+        }
+        self.nesting += 1;
+        true
+    }
+
     fn block(&mut self) {
+        if !self.enter_nesting() {
+            return;
+        }
         while !self.check(TokenKind::RightBrace) && !self.check(TokenKind::Eof) {
             self.declaration();
         }
 
         self.consume(TokenKind::RightBrace, "Expected '}' after block.");
+        self.nesting -= 1;
     }
 
     fn new_compiler(
@@ -1231,6 +1249,14 @@ impl<'a> Parser<'a> {
     }
 
     fn parse_precedence(&mut self, precedence: Precedence) {
+        if !self.enter_nesting() {
+            return;
+        }
+        self.parse_operand_and_operators(precedence);
+        self.nesting -= 1;
+    }
+
+    fn parse_operand_and_operators(&mut self, precedence: Precedence) {
         self.advance();
         let kind = self.previous.kind;
         let prefix_rule = self.get_rule(kind).prefix;
